@@ -429,7 +429,7 @@ class Repo:
                 elif kind == "macro" and k == "macro" and head[0].text == rest:
                     yield kind, rest, it
 
-        def go(scope, idx, notes):
+        def go(scope, idx, notes, rel=rel):
             seg = segs[idx]
             last = idx == len(segs) - 1
             for kind, rest, it in matches(seg, scope):
@@ -442,7 +442,8 @@ class Repo:
                         (" (hygiene: renamed " + ",".join(sorted(rename)) + ")") if rename else "")]
                     if last:
                         return Located([t.clone() for t in exp], "expansion", rel, scope[kw].line, scope[bc].line, n2, [])
-                    r = go(exp, idx + 1, n2)
+                    # items found inside the transcription carry the line numbers of the file that defines the macro
+                    r = go(exp, idx + 1, n2, mrel)
                     if r is not None:
                         return r
                 elif last:
@@ -450,7 +451,7 @@ class Repo:
                     item = [t.clone() for t in scope[kw:bc + 1]]
                     return Located(item, k, rel, scope[kw].line, scope[bc].line, notes, quals)
                 elif bo is not None:
-                    r = go(scope[bo + 1:bc], idx + 1, notes)
+                    r = go(scope[bo + 1:bc], idx + 1, notes, rel)
                     if r is not None:
                         return r
             return None
